@@ -175,6 +175,8 @@ def run(ctx: Ctx):
     repo = ctx.repo
     entries = [repo.func("ProjectFileParser.parse"), repo.func("Project.schedule"), repo.func("Report.generate"),
                repo.func("report", rel="scriptplan/cli/plan.py"), repo.func("main", rel="scriptplan/cli/main.py")]
+    from .common import framework_callbacks
+    entries = entries + framework_callbacks(repo)
     argc = ArgConst(repo)
     pr = PrunedReach(repo, ctx.cg, None)        # no flag pruning: the scriptplan CLI may set any flag
     reach = {}
@@ -376,6 +378,20 @@ def run(ctx: Ctx):
     ctx.ob("R12.3", f"{tss.qual}: marks the task scheduled", tss, ok, "property['scheduled'] = True after a successful walk" if ok else
            "a placed task is not marked as scheduled", key="R12.3|TaskScenario.schedule|mark")
 
+    # a second schedule() skips the tasks that are placed already; their bookings survive only in the per-slot ledgers, so the
+    # per-run preparation of a resource must leave those ledgers alone (the slot table itself is rebuilt)
+    from .common import heap_writes
+    rprep = repo.func("ResourceScenario.prepareScheduling")
+    for fld in ("slotSecondsUsed", "slotTaskUsage"):
+        ws = heap_writes(ctx, rprep, fld)
+        # plain re-assignment `self.<fld> = {}` is a write too
+        re_assign = [n for n in own_nodes(rprep) if isinstance(n, ast.Assign) and any(norm(t) == f"self.{fld}" for t in n.targets)]
+        ok = not ws and not re_assign
+        ctx.ob("R12.3", f"{rprep.qual}: leaves {fld} alone", rprep, ok,
+               "bookings of tasks that a re-run skips stay on record" if ok else
+               f"prepareScheduling clears {fld}: on a second schedule() the tasks placed by the first run are skipped, their slots look free "
+               "and a task that failed the first time is booked on top of them",
+               key=f"R12.3|ResourceScenario.prepareScheduling|{fld}")
     # ---------------------------------------------------------------- R12.4
     ab = repo.cls("AttributeBase")
     for nm, src in (("reset", "self._type.default"), ("inherit", "value")):
@@ -397,5 +413,5 @@ def run(ctx: Ctx):
            "mutable default arguments keep state between calls", key="R12.4|signatures|mutable defaults")
     ctx.floor("R12.1", 8)
     ctx.floor("R12.2", 7)
-    ctx.floor("R12.3", 3)
+    ctx.floor("R12.3", 5)
     ctx.floor("R12.4", 3)
